@@ -1,4 +1,5 @@
 import Plonk.Props.C03
+import Plonk.Props.WidgetTie
 #print axioms Plonk.Props.C03.accept_iff_equation
 #print axioms Plonk.Props.C03.code_equation_is_textbook
 #print axioms Plonk.Props.C03.equation_defined_iff
@@ -17,3 +18,7 @@ import Plonk.Props.C03
 #print axioms Plonk.Props.C03.v3_binds_s4
 #print axioms Plonk.Props.C03.legacy_ignores_s4
 #print axioms Plonk.Props.C03.nothing_else
+#print axioms Plonk.Props.WidgetTie.verifier_terms_are_the_source
+#print axioms Plonk.Props.WidgetTie.perm_scalars_are_the_models
+#print axioms Plonk.Props.WidgetTie.prover_quotient_terms_are_the_source
+#print axioms Plonk.Props.WidgetTie.prover_linearization_terms_are_the_source
